@@ -3,7 +3,9 @@ coq/theories/Run/RunC15.v):  (15 ty ntapes (op ...)) with ops
 (1 dst t x) var | (2 dst x) const | (3 dst t tensor shape data) container variables |
 (4 dst tensor shape data) container constants | (5 dst assign code c a form) unary kinds |
 (6 dst mode code a b form) binary kinds | (7 dst a b form) matmul | (8 a elem) derivatives |
-(9 t) clear | (10 a) reset one | (11 t) reset all of list t | (0) new list.
+(9 t) clear | (10 a) reset one | (11 t) reset all of list t | (0) new list |
+(12 dst (r ...) shape) impl Sum for Record over the records in registers r ... (iterator shape
+`shape` of harness/src/shapes.rs on the Rust side).
 Exhaustive part: every interleaving up to length 5 (quick) / 6 (thorough) over a scalar alphabet
 and over a container alphabet, every interleaving up to length 3 / 4 over their union, operands
 chosen deterministically (most recent objects).  Random part: scripts up to length 60 with
@@ -11,7 +13,12 @@ overwritten registers, partial resets, several containers per list, cross-list o
 Systematic families: cross_tape_cases (every binary kind / mode / form across two lists),
 cross_tape_matmul_shapes (matrix products across lists for every shape class m x k times k x l,
 m k l in 1..3, both container kinds, both orders, four forms), derivs_after_clear_cases
-(derivative sets of every container element after clear, after clear + partial / full reset)."""
+(derivative sets of every container element after clear, after clear + partial / full reset),
+sum_cases (EVERY tuple of 0..5 registers over {two variables of list 0, a constant, a variable of
+list 1} summed, derivative sets of the result and of the inputs, then clear + reset / reset-all
+and the same sum again; nested sums; sums over containers / empty registers), the alphabet SUMS
+(exhaustive interleavings of variables on two lists, constants, sums of the latest records,
+derivatives, clear, reset-all; to length 5, thorough: Rat and Fp)."""
 import itertools
 from tools.vlib import sx
 
@@ -67,6 +74,12 @@ class Tracker:
             a = self.recs[-1]
             d = self.fresh(); self.recs.append(d)
             self.ops.append([5, d, 0, [1, 0, 12, 16][pos % 4], self.num(3), a, form])
+        elif sym == "z":
+            # impl Sum over the latest (up to pos % 4 + 1) records, oldest first
+            k = pos % 4 + 1
+            regs = self.recs[-k:]
+            d = self.fresh(); self.recs.append(d)
+            self.ops.append([12, d, regs, (pos * 5 + len(regs)) % NSHAPES])
         elif sym == "d":
             if self.recs:
                 self.ops.append([8, self.recs[-1], 0])
@@ -121,6 +134,8 @@ class Tracker:
 
 
 SCALAR = "vwamsdcrR"
+SUMS = "vwkzdcR"
+NSHAPES = 19            # harness/src/shapes.rs SHAPES
 CONT = "VWAEUMDcSR"
 BOTH = "".join(dict.fromkeys(SCALAR + CONT + "k/K"))
 
@@ -243,6 +258,33 @@ def random_script(rng, maxlen):
             regs[d] = dict(oa, tape=t, bits=bits)
             if t is not None:
                 used[t] += 1 if oa["kind"] == "rec" else oa["rows"] * oa["cols"]
+        elif k < 0.61:
+            # impl Sum over 0..5 record registers (repetitions allowed)
+            recs = [r for r, o in regs.items() if o["kind"] == "rec"]
+            cnt = rng.choice([0, 1, 2, 2, 3, 3, 4, 5])
+            if cnt and not recs:
+                continue
+            chosen = []
+            tape0 = None
+            for _ in range(cnt):
+                cands = recs if cross else [r for r in recs if regs[r]["tape"] in (None, tape0) or tape0 is None]
+                if not cands:
+                    break
+                r = rng.choice(cands)
+                chosen.append(r)
+                if tape0 is None:
+                    tape0 = regs[r]["tape"]
+            bits = sum(regs[r]["bits"] for r in chosen) + 4
+            if bits > limit:
+                continue
+            d = dst()
+            ops.append([12, d, chosen, rng.randrange(NSHAPES)])
+            tapes = [regs[r]["tape"] for r in chosen if regs[r]["tape"] is not None]
+            if tapes:
+                used[tapes[0]] += len(chosen)      # partial appends stay even when the sum panics
+            if any(t != tapes[0] for t in tapes):
+                continue      # panics: the destination register keeps its old content
+            regs[d] = dict(kind="rec", tape=tapes[0] if tapes else None, bits=bits)
         elif k < 0.64:
             a = pick(rng.choice(["ten", "mat"]))
             if a is None:
@@ -392,9 +434,58 @@ def derivs_after_clear_cases():
                     yield sx([15, ty, 2, ops])
 
 
+def sum_cases():
+    """impl Sum for Record as a machine operation.  Registers: 0, 1 variables of list 0, 2 a
+    constant, 3 a variable of list 1.  EVERY tuple of 0..5 of them is summed (through a rotating
+    iterator shape); then the derivative sets of the result and of the inputs (their LENGTH shows
+    what a panicking sum left on the list), a second sum over the same tuple (positions continue
+    after the partial appends), then a clear/reset cycle (reset-all, or single resets in reverse
+    order) and the same sum and derivative sets again; plus nested sums, sums whose registers
+    hold containers / nothing (skipped), and sums right after a clear without reset (stale
+    operands: the sum still records, the derivative sweep panics)."""
+    k = 0
+    for ty in (0, 1):
+        n = (lambda v: [v, 1]) if ty == 0 else (lambda v: v)
+        pre = [[1, 0, 0, n(3)], [1, 1, 0, n(-4)], [2, 2, n(10)], [1, 3, 1, n(5)]]
+        for cnt in range(6):
+            for tup in itertools.product(range(4), repeat=cnt):
+                k += 1
+                tup = list(tup)
+                ops = list(pre)
+                ops += [[12, 4, tup, k % NSHAPES], [8, 4, 0], [8, 0, 0], [8, 3, 0],
+                        [12, 5, tup, (k + 7) % NSHAPES], [8, 5, 0]]
+                ops += [[9, 0]]
+                if k % 3 == 0:
+                    ops += [[11, 0]]
+                elif k % 3 == 1:
+                    ops += [[10, 1], [10, 0]]
+                else:
+                    ops += [[10, 0]]          # register 1 stays stale
+                ops += [[12, 6, tup, (k + 3) % NSHAPES], [8, 6, 0], [8, 0, 0], [8, 1, 0], [8, 4, 0]]
+                if k % 5 == 0:
+                    ops += [[9, 1], [11, 1], [12, 7, tup[::-1], (k + 11) % NSHAPES], [8, 7, 0], [8, 3, 0]]
+                yield sx([15, ty, 2, ops])
+        sh = [[0, 2], [1, 2]]
+        for shape in range(NSHAPES):
+            # nested sums, sums of sums across a cycle, containers / empty registers among the operands
+            yield sx([15, ty, 2, pre + [
+                [12, 4, [0, 1], shape], [12, 5, [4, 2, 4], shape], [12, 6, [5, 3], shape], [8, 5, 0], [8, 0, 0],
+                [6, 7, 0, 2, 5, 0, 0], [12, 8, [7, 5, 4, 0], shape], [8, 8, 0],
+                [9, 0], [12, 9, [0, 1], shape], [8, 9, 0], [11, 0], [12, 9, [0, 1, 9], shape], [8, 9, 0],
+                [12, 10, [8, 0], shape], [8, 10, 0]]])
+            yield sx([15, ty, 2, pre + [
+                [3, 4, 0, shape % 2, sh, [n(1), n(2), n(3), n(4)]], [12, 5, [0, 4], shape], [12, 6, [0, 9], shape],
+                [12, 7, [6], shape], [12, 8, [3, 3, 3], shape], [8, 8, 0], [12, 9, [], shape], [8, 9, 0],
+                [6, 10, 0, 0, 9, 3, 0], [8, 10, 0]]])
+
+
 def gen(tier, rng):
     quick = tier == "quick"
+    yield from sum_cases()
     yield from cross_tape_cases()
+    yield from exhaustive(SUMS, 5, 0)
+    if not quick:
+        yield from exhaustive(SUMS, 5, 1)
     yield from cross_tape_matmul_shapes()
     yield from derivs_after_clear_cases()
     yield from exhaustive(SCALAR, 5 if quick else 6, 0)
